@@ -105,7 +105,7 @@ def dumpRange (m : Machine) (start stop : Nat) : String := renderCells (dumpCell
 
 inductive PrintCmd where
   | flags | reg | range (a b : Nat) | span (a n : Nat) | dsSpan (n : Nat)
-  deriving Repr, Inhabited
+  deriving Repr, Inhabited, DecidableEq
 
 /-- PrintParser's language: literals print flags reg mem -> : and `[0-9]+` (usize, then `% MB`) -/
 def parsePrint (line : String) : Option PrintCmd :=
